@@ -29,7 +29,7 @@ PY = sys.executable or '/venv/bin/python'
 SEEDED = os.path.join(VERIF_DIR, 'seeded')
 TWINS = os.path.join(VERIF_DIR, 'twins')
 # stored changes the claimed rules are known NOT to decide (documented in DESIGN.md, section "misses")
-NOT_DECIDED = {'C13-1', 'C20-1'}
+NOT_DECIDED = set()
 
 
 def _variants(pid: str):
